@@ -48,7 +48,11 @@ claim('C09', 'sibling agreement on field read sets + field write sets closed ove
       'Partial: warm restart vs retain snapshot/apply agree on the retained declaration sources (known finding F9); every runtime-state field the cycle can write is written or re-created by restart or exempted with a reason (known finding F10 for the process image); a re-minting function must rebuild the instance-reference tables (known finding F8); policy table and retainability filter shared; operator restart is followed by load_retain_store before the next cycle; restart seeds task state like register_task and resets clock, frames, latch, cycle counter and save cadence. Values after restart are not decided.',
       _TB, 'DESIGN.md section 4 / C09')
 
+claim('C12', 'path-sensitive event pairing over every grammar function + drop-elaboration rule for markers + 1:1 token accounting rules + call-graph purity + recursion-guard analysis',
+      'Partial: no Marker can be dropped uncompleted and every start_node is matched by finish_node on every path of all 49 node-opening grammar functions (an unbalanced stream panics the tree builder); token events, source cursor and sink output advance 1:1 and the sink emits exactly source[token.range]; trivia flushed before every token/finish; parse/lex reach no ambient state; all three grammar recursion components are depth-guarded; ParseError ranges come from the current token. Termination of recovery loops, tiling of lexer ranges and trivia-insertion invariance are not decided.',
+      _TB, 'DESIGN.md section 4 / C12')
+
 _PENDING = 'check not built yet in this commit (work in progress; see DESIGN.md section 10 for the build order)'
-for _p in ['C02','C03','C04','C05','C06','C12','C13','C16']:
+for _p in ['C02','C03','C04','C05','C06','C13','C16']:
     na(_p, _PENDING)
 na('C15', 'formatting token-sequence preservation and idempotence are equalities between values computed by string manipulation; no shape-of-code fact is a necessary condition that a realistic breaking edit would violate (DESIGN.md section 5)')
